@@ -6,7 +6,8 @@ From Coq Require Import List NArith.
 From Coq.Strings Require Import Byte.
 From GI Require Import Lib.Bytes Gen.TsParseConsts TsParse.TsParse TsParse.TsSpec TsParse.TsShape
   TsParse.TsHolds TsParse.TsParseFacts TsParse.TsEnvFacts TsParse.TsRegexFacts TsParse.TsCmpFacts
-  TsParse.TsHoldsFacts TsParse.TsShapeFacts TsParse.TsUtf8Facts TsParse.TsFold TsParse.TsFoldFacts.
+  TsParse.TsHoldsFacts TsParse.TsShapeFacts TsParse.TsUtf8Facts TsParse.TsFold TsParse.TsFoldFacts
+  TsParse.TsScript TsParse.TsScriptFacts.
 Import ListNotations.
 
 (* any list of words survives quoting: nothing inside quotes is split, expanded or a comment
@@ -251,3 +252,128 @@ Theorem C02_fold_id_is_model : forall st k v vars args,
   cmd_env_f id_fold args st = cmd_env args st.
 Proof. exact fold_id_is_model. Qed.
 Print Assumptions C02_fold_id_is_model.
+
+(* ---- third wave: the script level — every line of every script, histories of commands *)
+
+(* the line loop of run, cmdEnv, Setenv, Getenv and setEnv in the current source are the ones
+   script_lines / run_lines, cmd_env / env_listing, setenv, getenv and setup_env were written against *)
+Theorem C02_script_shapes_current :
+  ts_runloop_shape = runloop_shape /\ ts_cmdenv_shape = cmdenv_shape /\ ts_setenv_shape = setenv_shape /\
+  ts_getenv_shape = getenv_shape /\ ts_setenvall_shape = setenvall_shape.
+Proof. exact script_shapes_current. Qed.
+Print Assumptions C02_script_shapes_current.
+
+Theorem C02_line_sep_is_nl : ts_line_sep = [NL].
+Proof. exact line_sep_is_nl. Qed.
+Print Assumptions C02_line_sep_is_nl.
+
+(* every byte of the script belongs to exactly one line, in order; no line is dropped or cut
+   whatever its length: the lines written back with their line feeds are the script (plus the
+   line feed an unterminated last line lacked) *)
+Theorem C02_lines_total : forall s,
+  unlines (script_lines s) = s ++ (if open_ended s then [NL] else []).
+Proof. exact lines_total. Qed.
+Print Assumptions C02_lines_total.
+
+Theorem C02_lines_no_nl : forall s, Forall (fun l => ~ In NL l) (script_lines s).
+Proof. exact lines_no_nl. Qed.
+Print Assumptions C02_lines_no_nl.
+
+(* a script written line by line is read back as exactly these lines (any bytes but LF, any
+   length, CR included), also when the last line has no line feed *)
+Theorem C02_lines_of_unlines : forall ls,
+  Forall (fun l => ~ In NL l) ls -> script_lines (unlines ls) = ls.
+Proof. exact lines_of_unlines. Qed.
+Print Assumptions C02_lines_of_unlines.
+
+Theorem C02_lines_of_unlines_open : forall ls l,
+  Forall (fun l => ~ In NL l) ls -> l <> [] -> ~ In NL l ->
+  script_lines (unlines ls ++ l) = ls ++ [l].
+Proof. exact lines_of_unlines_open. Qed.
+Print Assumptions C02_lines_of_unlines_open.
+
+(* the splitter that is extracted and run (constant stack) is the one of the statements *)
+Theorem C02_script_lines_tr_eq : forall s, script_lines_tr s = script_lines s.
+Proof. exact script_lines_tr_eq. Qed.
+Print Assumptions C02_script_lines_tr_eq.
+
+(* one tokenizer call per line, in order, each in the environment left by the lines before it *)
+Theorem C02_run_script_length : forall st s,
+  length (snd (run_script st s)) = length (script_lines s).
+Proof. exact run_script_length. Qed.
+Print Assumptions C02_run_script_length.
+
+Theorem C02_run_lines_each : forall ls st i l,
+  nth_error ls i = Some l ->
+  nth_error (snd (run_lines st ls)) i = Some (ts_parse (fst (run_lines st (firstn i ls))) l).
+Proof. exact run_lines_each. Qed.
+Print Assumptions C02_run_lines_each.
+
+(* EVERY line's words reach its command: a script of any number of lines, each the quoting of any
+   words (any length, any bytes but LF), gives for every line exactly its words *)
+Theorem C02_script_quoted_lines : forall st wss,
+  Forall (Forall (fun w => ~ In NL w)) wss ->
+  snd (run_script st (unlines (map quoted_line wss))) = map Some wss.
+Proof. exact script_quoted_lines. Qed.
+Print Assumptions C02_script_quoted_lines.
+
+(* a phase comment line, which run() does not hand to the tokenizer, has no words and no effect *)
+Theorem C02_phase_line_no_words : forall st r,
+  ts_parse st (ts_phase_prefix ++ r) = Some [] /\ fst (ts_step st (ts_phase_prefix ++ r)) = st.
+Proof. exact (fun st r => conj (phase_line_no_words st r) (phase_line_keeps_state st r)). Qed.
+Print Assumptions C02_phase_line_no_words.
+
+(* commands that only read — the listing `env`, `env NAME`, exists, grep, cmp, ... — leave the list
+   handed to programs, the lookup map and the current directory as they are, wherever they stand
+   in a history *)
+Theorem C02_readonly_commands_frame : forall h s,
+  hrun (filter (fun c => negb (readonly c)) h) s = hrun h s.
+Proof. exact readonly_commands_frame. Qed.
+Print Assumptions C02_readonly_commands_frame.
+
+Theorem C02_listing_is_identity : forall s, hstep s (HEnv []) = s.
+Proof. exact listing_is_identity. Qed.
+Print Assumptions C02_listing_is_identity.
+
+(* a script line is the history command hcmd_of_line reads from it *)
+Theorem C02_ts_step_is_hstep : forall st cd line,
+  fst (ts_step st line) = hs_env (hstep {| hs_env := st; hs_cd := cd |} (hcmd_of_line st line)).
+Proof. exact ts_step_is_hstep. Qed.
+Print Assumptions C02_ts_step_is_hstep.
+
+(* after any history of env / ts.Setenv / cd / read-only commands, expansion and ts.Getenv see the
+   value of the latest assignment *)
+Theorem C02_history_latest_wins : forall h s k,
+  getenv (hs_env (hrun h s)) k = pick (last_assign k (hist_assigns h)) (getenv (hs_env s) k).
+Proof. exact history_latest_wins. Qed.
+Print Assumptions C02_history_latest_wins.
+
+Theorem C02_history_consistent : forall h s,
+  forallb api_ok h = true -> consistent (hs_env s) -> consistent (hs_env (hrun h s)).
+Proof. exact history_consistent. Qed.
+Print Assumptions C02_history_consistent.
+
+(* ... and a program executed at that point finds that very value under every regular name but PWD *)
+Theorem C02_history_child_agrees : forall h vars cd0 k l,
+  forallb api_ok h = true -> regular k -> k <> pwd_key ->
+  let s := hrun h {| hs_env := setup_env vars; hs_cd := cd0 |} in
+  child_env (hs_env s) (hs_cd s) = Some l ->
+  or_empty (child_lookup k l) = getenv (hs_env s) k /\
+  getenv (hs_env s) k = pick (last_assign k (hist_assigns h)) (or_empty (list_get vars k)).
+Proof. exact history_child_agrees. Qed.
+Print Assumptions C02_history_child_agrees.
+
+Theorem C02_history_child_pwd : forall h s l,
+  child_env (hs_env (hrun h s)) (hs_cd (hrun h s)) = Some l ->
+  child_lookup pwd_key l = Some (pick (last_cd h) (hs_cd s)).
+Proof. exact history_child_pwd. Qed.
+Print Assumptions C02_history_child_pwd.
+
+(* the argument-less env prints every variable of the list exactly once, with the value expansion uses *)
+Theorem C02_env_listing_shows_current : forall st out,
+  env_listing st = Some out ->
+  (forall k v, In (k, v) out -> v = getenv st k) /\
+  NoDup (map fst out) /\
+  (forall kv k v, In kv (env_list st) -> split_kv kv = Some (k, v) -> In k (map fst out)).
+Proof. exact env_listing_shows_current. Qed.
+Print Assumptions C02_env_listing_shows_current.
